@@ -2,7 +2,7 @@
    (the matrix half is Properties/C10_matrix.v).  Restates Proofs/DriverMemory.v on the memory functions of the driver
    model (update_mem = update_lbfgs_matrices's effect on X, G and on which history the matrices are built from). *)
 From Coq Require Import List ZArith Bool String Lia Floats.PrimFloat.
-From LBFGSB Require Generated.Base.
+From LBFGSB Require Generated.BfgsMem.
 From LBFGSB Require Import Base.Res Model.SF Model.FloatVec Model.Driver Generated.Memory Proofs.DriverMemory.
 Import ListNotations.
 Open Scope Z_scope.
@@ -50,18 +50,18 @@ Proof. repeat split; reflexivity. Qed.
 (* the curvature test of the model IS bfgsmats.is_update_X_and_G, translated from its source on every run (the two dot products
    are the BLAS oracle of the kernel record) *)
 Theorem C10_curvature_test_from_source : forall (K : kern) (c : cfg) xk gk x_old g_old,
-  LBFGSB.Generated.Base.is_update_X_and_G (vdot K) xk gk x_old g_old (eps_sy c) = curvature_ok K c xk gk x_old g_old.
-Proof. intros. unfold LBFGSB.Generated.Base.is_update_X_and_G, curvature_ok. destruct (ltb _ _); reflexivity. Qed.
+  LBFGSB.Generated.BfgsMem.is_update_X_and_G (vdot K) xk gk x_old g_old (eps_sy c) = curvature_ok K c xk gk x_old g_old.
+Proof. intros. unfold LBFGSB.Generated.BfgsMem.is_update_X_and_G, curvature_ok. destruct (ltb _ _); reflexivity. Qed.
 
 (* ... and so is the bounded history: bfgsmats.update_X_and_G (append, drop the oldest when more than maxcor + 1 points), translated
    on every run, is the history part of the model's update_mem for histories of equal length *)
 Theorem C10_update_X_and_G_from_source : forall (K : kern) (c : cfg) xk gk (X G : list vec) m,
   List.length G = List.length X ->
-  let '(acc, X1, G1) := LBFGSB.Generated.Base.update_X_and_G (vdot K) xk gk X G (maxcor c) (eps_sy c) in
+  let '(acc, X1, G1) := LBFGSB.Generated.BfgsMem.update_X_and_G (vdot K) xk gk X G (maxcor c) (eps_sy c) in
   let '(X2, G2, m2) := update_mem K c xk gk X G m in
   X1 = X2 /\ G1 = G2 /\ (acc = false -> m2 = m) /\ (acc = true -> m2 = Some (X2, G2)).
 Proof.
-  intros K c xk gk X G m HL. unfold LBFGSB.Generated.Base.update_X_and_G, update_mem, last_or.
+  intros K c xk gk X G m HL. unfold LBFGSB.Generated.BfgsMem.update_X_and_G, update_mem, last_or.
   rewrite (C10_curvature_test_from_source K c xk gk (last X []) (last G [])).
   destruct (curvature_ok K c xk gk (last X []) (last G [])); cbn [negb].
   - unfold trim. rewrite !app_length, HL. cbn [List.length].
